@@ -1,24 +1,32 @@
 (* C15 - semantic tokens are well-formed and agree with lexical class and binding kind.
    Statements only; every proof is `exact <lemma>` (Proofs/SemTokProofs.v).  The theorems are about
-   the model Model/SemTok.v of lsp4spl/src/features/semantic_tokens.rs; [doc_wf_b] is the explicit,
-   executable well-formedness predicate on analysed documents (tokens ordered / sliceable / not
-   starting at a line terminator; declarations in source order with in-bounds ranges; a
-   declaration's name ends with an identifier token).
+   the model Model/SemTok.v of lsp4spl/src/features/semantic_tokens.rs (as of /repo e4d8780:
+   identifiers in type expressions of a procedure are looked up globally; the tokens behind the
+   last declaration are walked too); [doc_wf_b] is the explicit, executable well-formedness
+   predicate on analysed documents (tokens ordered / sliceable / not starting at a line
+   terminator; declarations in source order with in-bounds ranges; the program's range ends at or
+   behind the last declaration - the trailing slice starts there; a declaration's name ends with
+   an identifier token).
 
    PROVED here, for ALL documents satisfying [doc_wf_b]: no panic (in particular none of the two
    u32 subtractions underflows), the decoded stream is the image of an order-preserving
    subsequence of the document's tokens (each decoded token = position of the first byte and
    UTF-16 length of ONE lexical token), strictly increasing, byte ranges pairwise disjoint,
    keywords / numbers / comments carry exactly their lexical class, and every keyword / number /
-   comment inside a declaration is reported.  Also proved: the token half of [doc_wf_b] for every
-   output of `lex`, the ordering part of the tree half for every output of `parse`.
-   Also proved: build/analyze keep offsets and ranges, so for every document produced by
-   AnalyzedSource::new [doc_wf_b] reduces to [decls_names_b] (C15_new_doc_wf, C15_new_doc_stream).
+   comment inside a declaration or in the trailing slice is reported ([emitted] includes the
+   trailing slice, so all of these speak about it).  Also proved: the token half of [doc_wf_b] for
+   every output of `lex`, the ordering part of the tree half for every output of `parse`;
+   build/analyze keep offsets and ranges, so for every document produced by AnalyzedSource::new
+   [doc_wf_b] reduces to [decls_names_b] (C15_new_doc_wf), declarations and trailing slice tile
+   the token vector (C15_new_doc_covered), hence EVERY keyword / number / comment token of the
+   document is in the answer with its class (C15_new_doc_stream, C15_lexical_reported_everywhere
+   = part (a) of [C15_full_statement], with or without diagnostics).
    NOT proved (validated on every generated document by the judge's wf flag): that declaration names
-   end with identifier tokens ([decls_names_b]) for parser outputs.  The classification of identifiers by binding
-   kind ([C15_full_statement]) is stated on the model and REFUTED by a witness that the known
-   findings C15-type-use-shadowed-by-local / C15-trailing-comment describe; outside those two
-   classes it is validated by oracle only. *)
+   end with identifier tokens ([decls_names_b]) for parser outputs.  NOT proved: part (b) of
+   [C15_full_statement], the classification of identifiers by binding kind; it is stated on the
+   model and validated by oracle only (the former refutation, C15_full_statement_refuted on the
+   witness `type t = int; proc p(t: t) { } proc main() { }`, is gone with the repair b909979: the
+   witness now evaluates to the demanded stream, C15_example_type_use / _int_hidden / _trailing). *)
 From Coq Require Import Sorting.Sorted.
 From Spl Require Import Model.SemTok Proofs.SemTokProofs Proofs.ParserTotal.
 
@@ -48,10 +56,10 @@ Theorem C15_lexical_class : forall d, doc_wf_b d = true -> Forall lex_ok (emitte
 Proof. exact semtok_lexical_class. Qed.
 Print Assumptions C15_lexical_class.
 
-Theorem C15_lexical_complete : forall d i g off j k c,
-  doc_wf_b d = true ->
-  nth_error (pg_decls (d_ast d)) i = Some (g, off) ->
-  (off + i_s (gdecl_info g) <= j < off + i_e (gdecl_info g))%nat ->
+(* [covered d j]: j lies in the token range of a declaration or in the trailing slice
+   (trailing_start d <= j) *)
+Theorem C15_lexical_complete : forall d j k c,
+  doc_wf_b d = true -> covered d j ->
   nth_error (d_toks d) j = Some k -> map_class (tk k) = Some c ->
   In (k, c) (emitted d).
 Proof. exact semtok_lexical_complete. Qed.
@@ -62,7 +70,8 @@ Proof. exact lex_toks_wf. Qed.
 Print Assumptions C15_tokens_wf.
 
 Theorem C15_decls_ordered : forall toks prog,
-  EofLast toks -> parse toks = Done prog -> decls_ordered_b (length toks) 0 (pg_decls prog) = true.
+  EofLast toks -> parse toks = Done prog ->
+  decls_ordered_b (length toks) 0 (pg_decls prog) (i_e (pg_info prog)) = true.
 Proof. exact parse_decls_ordered. Qed.
 Print Assumptions C15_decls_ordered.
 
@@ -74,6 +83,11 @@ Theorem C15_new_doc_wf : forall t d,
 Proof. exact new_doc_wf. Qed.
 Print Assumptions C15_new_doc_wf.
 
+(* ... and the handler walks over every token of the document: *)
+Theorem C15_new_doc_covered : forall t d, new_doc t = Done d -> forall j, covered d j.
+Proof. exact new_doc_covered. Qed.
+Print Assumptions C15_new_doc_covered.
+
 (* ... so for every text, provided the names of the declarations end with identifier tokens: *)
 Theorem C15_new_doc_stream : forall t d,
   new_doc t = Done d -> decls_names_b (d_toks d) (pg_decls (d_ast d)) = true ->
@@ -82,9 +96,21 @@ Theorem C15_new_doc_stream : forall t d,
     decode data = map (tok_view t) (emitted d) /\
     Subseq (map fst (emitted d)) (d_toks d) /\
     StronglySorted (fun a b => pos_lt (at_pos a) (at_pos b)) (decode data) /\
-    Forall lex_ok (emitted d).
+    Forall lex_ok (emitted d) /\
+    (forall j k c, nth_error (d_toks d) j = Some k -> map_class (tk k) = Some c -> In (k, c) (emitted d)).
 Proof. exact new_doc_stream. Qed.
 Print Assumptions C15_new_doc_stream.
+
+(* part (a) of C15_full_statement below, without its hypothesis on diagnostics: every keyword /
+   number / comment token of the document - also a comment behind the last declaration - is in the
+   decoded answer with its lexical class *)
+Theorem C15_lexical_reported_everywhere : forall t d data,
+  new_doc t = Done d -> decls_names_b (d_toks d) (pg_decls (d_ast d)) = true ->
+  semantic_tokens d = SOk data ->
+  forall j k c, nth_error (d_toks d) j = Some k -> map_class (tk k) = Some c ->
+                In (tok_view (d_text d) (k, c)) (decode data).
+Proof. exact new_doc_complete. Qed.
+Print Assumptions C15_lexical_reported_everywhere.
 
 (* ---- the classification part ---- *)
 (* In a document without diagnostics the answer reports (a) every keyword / number / comment of the
@@ -92,7 +118,10 @@ Print Assumptions C15_new_doc_stream.
    the token index and the class prescribed by the occurrence's syntactic role - declared name with
    the declaration modifier, type position, variable position resolved in the procedure's own local
    table, callee) with that class.  With C15_coincide / C15_increasing / C15_lexical_class (nothing
-   else is reported, in text order) this pins the whole answer. *)
+   else is reported, in text order) this pins the whole answer.
+   NOT PROVED as a whole: (a) is C15_lexical_reported_everywhere; (b) is validated only - the check
+   decides both parts for every generated well-typed program (judge command 50), in agreement with
+   the independent python oracle, and found no counterexample on the repaired code. *)
 Definition C15_full_statement : Prop :=
   forall t d data,
     new_doc t = Done d -> doc_errors d = Done [] -> semantic_tokens d = SOk data ->
@@ -100,16 +129,6 @@ Definition C15_full_statement : Prop :=
                    In (tok_view (d_text d) (k, c)) (decode data)) /\
     (forall j k c, In (j, Some c) (doc_occs d) -> nth_error (d_toks d) j = Some k ->
                    In (tok_view (d_text d) (k, c)) (decode data)).
-
-(* The faithful model REFUTES it: in `type t = int; proc p(t: t) { } proc main() { }` (no diagnostics)
-   the second `t` of `t: t` stands in type position and is reported as a parameter, because the handler
-   classifies identifiers by looking their spelling up (known finding C15-type-use-shadowed-by-local;
-   part (a) fails as well, on comments behind the last declaration: C15-trailing-comment).  The check
-   replays this witness on the implementation and decides both parts of the statement for every
-   generated well-typed program (judge command 50), in agreement with the independent python oracle. *)
-Theorem C15_full_statement_refuted : ~ C15_full_statement.
-Proof. exact semtok_full_statement_refuted. Qed.
-Print Assumptions C15_full_statement_refuted.
 
 (* ---- non-vacuity: `type t = int; // é€😀 c` LF `proc f(p: t) { var v: t; v := p; }` ---- *)
 Definition c15_text : text :=
@@ -127,4 +146,40 @@ Example C15_example_stream :
   = Some (Some [ (0, 0, 4, 1, 0); (0, 5, 1, 3, 1); (0, 9, 3, 3, 0); (0, 14, 10, 0, 0);
                  (1, 0, 4, 1, 0); (1, 5, 1, 4, 1); (1, 7, 1, 5, 1); (1, 10, 1, 3, 0);
                  (1, 15, 3, 1, 0); (1, 19, 1, 6, 1); (1, 22, 1, 3, 0); (1, 25, 1, 6, 0); (1, 30, 1, 5, 0) ])%N.
+Proof. vm_compute. reflexivity. Qed.
+
+(* ---- the witnesses of the repaired defects (regression; also in corpus/C15) ---- *)
+Definition stream_of (t : text) : option (bool * option (list (N * N * N * N * N))) :=
+  match new_doc t with
+  | Done d =>
+      Some (doc_wf_b d,
+            match semantic_tokens d with
+            | SOk data => Some (map (fun a => (at_line a, at_col a, at_len a, at_ty a, at_mod a)) (decode data))
+            | SFail _ => None
+            end)
+  | _ => None
+  end.
+
+(* `type t = int; proc p(t: t) { t := 1; }` LF `proc main() {}`: the second `t` of `t: t` (0:24) is a
+   type, the `t` of the assignment (0:29) the parameter *)
+Example C15_example_type_use :
+  stream_of [116; 121; 112; 101; 32; 116; 32; 61; 32; 105; 110; 116; 59; 32; 112; 114; 111; 99; 32; 112; 40; 116;
+             58; 32; 116; 41; 32; 123; 32; 116; 32; 58; 61; 32; 49; 59; 32; 125; 10; 112; 114; 111; 99; 32; 109; 97;
+             105; 110; 40; 41; 32; 123; 125]%N
+  = Some (true, Some [ (0, 0, 4, 1, 0); (0, 5, 1, 3, 1); (0, 9, 3, 3, 0); (0, 14, 4, 1, 0); (0, 19, 1, 4, 1);
+                       (0, 21, 1, 5, 1); (0, 24, 1, 3, 0); (0, 29, 1, 5, 0); (0, 34, 1, 2, 0);
+                       (1, 0, 4, 1, 0); (1, 5, 4, 4, 1) ])%N.
+Proof. vm_compute. reflexivity. Qed.
+
+(* `proc main() { var int: int; }`: the variable `int` (0:18) and the type `int` (0:23) *)
+Example C15_example_int_hidden :
+  stream_of [112; 114; 111; 99; 32; 109; 97; 105; 110; 40; 41; 32; 123; 32; 118; 97; 114; 32; 105; 110; 116; 58;
+             32; 105; 110; 116; 59; 32; 125]%N
+  = Some (true, Some [ (0, 0, 4, 1, 0); (0, 5, 4, 4, 1); (0, 14, 3, 1, 0); (0, 18, 3, 6, 1); (0, 23, 3, 3, 0) ])%N.
+Proof. vm_compute. reflexivity. Qed.
+
+(* `proc main() { } // tail`: the comment behind the last declaration (0:16) *)
+Example C15_example_trailing :
+  stream_of [112; 114; 111; 99; 32; 109; 97; 105; 110; 40; 41; 32; 123; 32; 125; 32; 47; 47; 32; 116; 97; 105; 108]%N
+  = Some (true, Some [ (0, 0, 4, 1, 0); (0, 5, 4, 4, 1); (0, 16, 7, 0, 0) ])%N.
 Proof. vm_compute. reflexivity. Qed.
